@@ -336,6 +336,18 @@ def _paths(stmts, limit):
 
 
 def _step(st, limit):
+    if isinstance(st, ast.Return) and isinstance(st.value, ast.IfExp):
+        # `return a if c else b` is two paths
+        a = ast.Return(value=st.value.body)
+        b = ast.Return(value=st.value.orelse)
+        ast.copy_location(a, st)
+        ast.copy_location(b, st)
+        out = []
+        for q in _step(a, limit):
+            out.append(Path([(st.value.test, True)] + q.conds, q.stmts, q.exit, q.exit_node))
+        for q in _step(b, limit):
+            out.append(Path([(st.value.test, False)] + q.conds, q.stmts, q.exit, q.exit_node))
+        return out
     if isinstance(st, ast.Return):
         return [Path([], [st], "return", st)]
     if isinstance(st, ast.Raise):
